@@ -1,6 +1,7 @@
 package props
 
 import (
+	"bytes"
 	"fmt"
 	"strings"
 	"sync"
@@ -11,6 +12,7 @@ import (
 	"github.com/buildbuildio/pebbles/format"
 	"github.com/vektah/gqlparser/v2"
 	"github.com/vektah/gqlparser/v2/ast"
+	gqlformatter "github.com/vektah/gqlparser/v2/formatter"
 	"pgregory.net/rapid"
 
 	"verif/harness/ev"
@@ -329,6 +331,18 @@ func genCacheCase(t *rapid.T) (*CacheCase, []string) {
 					labels = append(labels, "collision:explicitHelpers")
 				}
 			}
+			// default value variants: the same text except for the declared defaults, sent without values for those variables
+			if q2, dropped, ok := withOtherDefaults(union, op.Query); ok {
+				v3 := map[string]interface{}{}
+				for k, v := range op.Variables {
+					if !dropped[k] {
+						v3[k] = v
+					}
+				}
+				c.Pool = append(c.Pool, gwx.GQLRequest{Query: op.Query, Variables: v3, OperationName: op.OperationName},
+					gwx.GQLRequest{Query: q2, Variables: v3, OperationName: op.OperationName})
+				labels = append(labels, "collision:varDefaults")
+			}
 			// variable value variants
 			if len(op.Variables) > 0 {
 				v2 := map[string]interface{}{}
@@ -459,4 +473,79 @@ func init() {
 		f, _ := checkC14(&c)
 		return f, nil
 	}
+}
+
+// withOtherDefaults re-renders the document with every changeable variable default changed to another value of the
+// same type; it returns the names of the variables whose default changed.
+func withOtherDefaults(schema *ast.Schema, query string) (string, map[string]bool, bool) {
+	doc, errs := gqlparser.LoadQuery(schema, query)
+	if errs != nil {
+		return "", nil, false
+	}
+	changed := map[string]bool{}
+	for _, o := range doc.Operations {
+		for _, vd := range o.VariableDefinitions {
+			if vd.DefaultValue != nil && otherValue(schema, vd.DefaultValue) {
+				changed[vd.Variable] = true
+			}
+		}
+	}
+	if len(changed) == 0 {
+		return "", nil, false
+	}
+	var buf bytes.Buffer
+	gqlformatter.NewFormatter(&buf).FormatQueryDocument(doc)
+	out := buf.String()
+	if _, errs := gqlparser.LoadQuery(schema, out); errs != nil {
+		return "", nil, false
+	}
+	return out, changed, true
+}
+
+// otherValue changes a constant value in place to a different value of the same type; false if it cannot.
+func otherValue(schema *ast.Schema, v *ast.Value) bool {
+	switch v.Kind {
+	case ast.IntValue:
+		v.Raw += "1"
+		return true
+	case ast.FloatValue:
+		if strings.ContainsAny(v.Raw, "eE") {
+			return false
+		}
+		v.Raw += "5"
+		return true
+	case ast.StringValue, ast.BlockValue:
+		v.Raw += "x"
+		return true
+	case ast.BooleanValue:
+		if v.Raw == "true" {
+			v.Raw = "false"
+		} else {
+			v.Raw = "true"
+		}
+		return true
+	case ast.EnumValue:
+		if v.Definition == nil {
+			return false
+		}
+		for _, ev := range v.Definition.EnumValues {
+			if ev.Name != v.Raw {
+				v.Raw = ev.Name
+				return true
+			}
+		}
+		return false
+	case ast.ListValue, ast.ObjectValue:
+		for _, ch := range v.Children {
+			if ch.Value != nil && otherValue(schema, ch.Value) {
+				return true
+			}
+		}
+		if v.Kind == ast.ListValue && len(v.Children) > 1 {
+			v.Children = v.Children[:len(v.Children)-1]
+			return true
+		}
+		return false
+	}
+	return false
 }
